@@ -46,6 +46,18 @@ def value_for(t, L, k):
     return None
 
 
+RANGE_MESSAGES = {"int too large to convert to float": "huge-int-meets-float", "integer division result too large for a float": "huge-int-meets-float",
+                  "cannot convert float infinity to integer": "infinity-to-int", "cannot convert float NaN to integer": "nan-to-int"}
+
+
+def run_key(obs):
+    """(exception class, innermost nsl function, opcode) - except for the Python exceptions that a number outside every machine range
+    raises wherever it meets an operation: those are one finding per message, whatever instruction happens to touch the value first"""
+    if obs.get("exc") in ("OverflowError", "ValueError") and obs.get("msg") in RANGE_MESSAGES:
+        return f"numeric-range:{RANGE_MESSAGES[obs['msg']]}"
+    return f"{obs.get('exc')}:{obs.get('where')}:{obs.get('last_op')}"
+
+
 def classify(obs):
     """-> (r, what): r in ok | divzero | oob | budget | internal"""
     if obs["ok"]:
@@ -111,7 +123,7 @@ def work(items):
                         cr, what = classify(obs)
                         ev.append({"e": "run", "r": cr, "what": what, "fn": fname})
                         rec["runs"].append({"fn": fname, "args": A.show_py(args), "globals": A.show_py(g0), "r": cr, "what": what,
-                                            "key": f"{obs.get('exc')}:{obs.get('where')}:{obs.get('last_op')}" if cr == "internal" else ""})
+                                            "key": run_key(obs) if cr == "internal" else ""})
             out.append(rec)
     return out
 
